@@ -1,7 +1,7 @@
 (** Entry points for operation histories on an Acl (kernels K-ids, K-history). *)
 From V Require Import base.Prelude base.Strs gen.Tables model.Cfg model.Names model.Wildcard
   model.Addr model.Ports model.Ace model.Lex model.AddrText model.AceText model.AclText
-  model.Shading model.SplitPorts model.Platform model.Ops.
+  model.Shading model.SplitPorts model.Platform model.Ops proofs.HistoryProofs.
 Local Open Scope N_scope.
 
 Definition v_leaf (l : leaf) : val := VL [VN (leaf_id l); VN (leaf_note l)].
@@ -11,9 +11,10 @@ Definition v_top (t : top) : val :=
   | TGrp id n name s ls => VL [VS "group"; VN id; VN n; VS name; VN s; VL (map v_leaf ls)]
   end.
 
-(** what is observed after a step: the text lines, the flags, and who is who *)
-Definition observe (a : acl) : val :=
-  VL [VL (map VS (acl_lines a));
+(** what is observed after a step: the certificate of the step (HistoryProofs.step_cert: equal
+    decisions where the reference says so), the text lines, the flags, and who is who *)
+Definition observe (cert : bool) (a : acl) : val :=
+  VL [VB cert; VL (map VS (acl_lines a));
       VL [VS (platform_name (plat (o_cfg a))); VB (port_nr (o_cfg a)); VB (protocol_nr (o_cfg a)); VS (o_gby a)];
       VL [VN (o_id a); VN (o_note a)];
       VL (map v_top (o_tops a))].
@@ -23,7 +24,7 @@ Fixpoint run_ops (next : N) (a : acl) (ops : list op) : list val :=
   | [] => []
   | o :: rest =>
       match step a o with
-      | Ok a1 => let p := relabel next a1 in observe (snd p) :: run_ops (fst p) (snd p) rest
+      | Ok a1 => let p := relabel next a1 in observe (step_cert a o a1) (snd p) :: run_ops (fst p) (snd p) rest
       | r => [res_val (fun _ => VS "") r]
       end
   end.
@@ -34,7 +35,7 @@ Definition run_history (c : cfg) (name : string) (body : list string) (ops : lis
   | Ok a0 =>
       let p := relabel 1 a0 in
       let a1 := note_all (snd p) in
-      VL (observe a1 :: run_ops (fst p) a1 ops)
+      VL (observe true a1 :: run_ops (fst p) a1 ops)
   | r => res_val (fun _ => VS "") r
   end.
 
